@@ -362,9 +362,92 @@ fn slot_sub(tier: Tier) -> Sub {
   sub
 }
 
+
+// ------------------------------------------------------------------------------------------------
+// E3: frame-count boundary through every receiving socket type
+// ------------------------------------------------------------------------------------------------
+
+fn frame_count_world(ty: SocketType, more_frames: usize) -> world::WorldResult<(usize, Vec<usize>, bool)> {
+  world::run(1, move || async move {
+    let ctx = Context::new().expect("context");
+    let x = stack::mk(&ctx, ty, &[(o::RCVTIMEO, 20), (o::LINGER, 0)]).await;
+    if ty == SocketType::Sub {
+      x.set_option(o::SUBSCRIBE, &b""[..]).await.unwrap();
+    }
+    let peer_name = match ty {
+      SocketType::Pull => "PUSH",
+      SocketType::Router | SocketType::Dealer => "DEALER",
+      SocketType::Rep => "REQ",
+      SocketType::Sub => "PUB",
+      _ => "DEALER",
+    };
+    let mut raw = stack::raw_peer(&x, true, 1 << 20).await;
+    let mut bytes = v3_greeting("NULL", false);
+    bytes.extend_from_slice(&ready(peer_name, None));
+    let mut sent_frames = 0usize;
+    if ty == SocketType::Rep || ty == SocketType::Dealer {
+      // request envelope delimiter (rzmq's DEALER expects and strips one too: AUTO_DELIMITER)
+      bytes.extend_from_slice(&crate::stack::frame(0x01, b""));
+    }
+    for _ in 0..more_frames {
+      bytes.extend_from_slice(&crate::stack::frame(0x01, b"x"));
+      sent_frames += 1;
+    }
+    bytes.extend_from_slice(&crate::stack::frame(0x00, b"end"));
+    sent_frames += 1;
+    let _ = stack::write_settle(&mut raw, &bytes).await;
+    settle_n(6).await;
+    let mut shapes = vec![];
+    while let Ok(fr) = x.recv_multipart().await {
+      shapes.push(fr.len());
+    }
+    let open = tokio::time::timeout(Duration::from_secs(2), x.set_option(o::SNDHWM, 5i32)).await.map(|r| r.is_ok()).unwrap_or(false);
+    drop(raw);
+    let _ = tokio::time::timeout(Duration::from_secs(30), ctx.term()).await;
+    (sent_frames, shapes, open)
+  })
+}
+
+fn frame_count_sub(_tier: Tier) -> Sub {
+  let mut sub = Sub::new("frame-count-boundary", "E3");
+  sub.rule = "case = one world per (receiving socket type x number of MORE frames in {250..257, 300}): a raw peer completes the handshake and sends one message of that many MORE frames plus a final frame; oracle: no task panics, the application sees either that message whole (plus the identity frame on ROUTER) or nothing, the socket stays open".into();
+  let mut list = vec![];
+  for ty in [SocketType::Pull, SocketType::Router, SocketType::Rep, SocketType::Sub, SocketType::Dealer] {
+    for k in [1usize, 250, 251, 252, 253, 254, 255, 256, 257, 300] {
+      list.push((ty, k));
+    }
+  }
+  sub.bounds = json!({"worlds": list.len()});
+  par::enumerate(&mut sub, list.len(), |i| {
+    let (ty, k) = list[i];
+    let r = frame_count_world(ty, k);
+    let wit = json!({"explorer": "e3", "sub": "frame-count-boundary", "cell": format!("{:?} {}", ty, k)});
+    let class = format!("{:?}", ty);
+    let mut case = Case { steps: 2, nontrivial: k >= 250, ..Default::default() };
+    for p in &r.panics {
+      case.violations.push(("panic".into(), format!("{}:{}", p.rsplit(" @ ").next().map(mc_core::short_loc).unwrap_or_default(), class), format!("{} MORE frames + final to a {:?} socket: {}", k, ty, p), wit.clone()));
+    }
+    if let Some((sent, shapes, open)) = r.result {
+      case.outcome = mc_core::digest(&(shapes.clone(), open));
+      case.state = mc_core::digest(&(i, shapes.len()));
+      let extra = (ty == SocketType::Router) as usize;
+      let ok = shapes.is_empty() || shapes == vec![sent + extra];
+      if !ok {
+        case.violations.push(("partial-or-split-message-delivered".into(), class.clone(), format!("peer sent one message of {} frames; application saw messages with frame counts {:?}", sent, shapes), wit.clone()));
+      }
+      if !open {
+        case.violations.push(("socket-shut-down".into(), class.clone(), format!("after {} MORE frames + final the socket no longer answers set_option", k), wit.clone()));
+      }
+    }
+    case
+  });
+  sub
+}
+
 pub fn add_world_subs(rep: &mut Report, tier: Tier) {
   rep.assume("E3 handshake pacing runs on the paused tokio clock (exact virtual milliseconds); slot release needs the tcp listener's connection semaphore and runs on the real clock (E4) with a one-sided 6 s margin");
   rep.add(pacing_sub(tier));
+  rep.add(frame_count_sub(tier));
   rep.add(slot_sub(tier));
 }
 
